@@ -87,18 +87,49 @@ def _init_worker(pid):
         _MOD.worker_init()
 
 
+class _CaseTimeout(BaseException):
+    """Raised by the per-case CPU budget (BaseException: a broad `except Exception` in the code under test cannot swallow it)."""
+
+
+def _cpu_limited(fn, arg, limit):
+    """fn(arg) under a budget of `limit` CPU-seconds of THIS process (ITIMER_PROF counts user+system time, so the budget
+    does not depend on how busy the machine is).  A change to /repo that makes one call loop or blow up exponentially then
+    costs one case, not the whole stage (the stage limit IMPL_TIMEOUT would drop every result).  limit None/0 = no budget."""
+    if not limit:
+        return fn(arg)
+    import signal
+
+    def _h(sig, frm):
+        raise _CaseTimeout()
+    old = signal.signal(signal.SIGPROF, _h)
+    signal.setitimer(signal.ITIMER_PROF, float(limit), 2.0)      # repeating: fires again if the first one was swallowed
+    try:
+        return fn(arg)
+    finally:
+        signal.setitimer(signal.ITIMER_PROF, 0)
+        signal.signal(signal.SIGPROF, old)
+
+
 def _do_case(args):
     """Run implementation adapter and property oracle on one case."""
     case, want_oracle = args
     out = {}
+    limit = getattr(_MOD, "CASE_CPU_LIMIT", 150) * float(os.environ.get("VERIF_CASE_CPU_SCALE", "1")) \
+        if getattr(_MOD, "CASE_CPU_LIMIT", 150) else None
     try:
-        out["obs"] = _MOD.impl(case)
+        out["obs"] = _cpu_limited(_MOD.impl, case, limit)
+    except _CaseTimeout:
+        out["obs"] = ["EXC", "CaseTimeout", "no answer within %s CPU-seconds" % limit]
+        out["exc"] = "implementation adapter exceeded the per-case CPU budget"
     except Exception as e:  # an unexpected exception is an observable, never a pass
         out["obs"] = ["EXC", type(e).__name__, str(e)[:200]]
         out["exc"] = traceback.format_exc()[-1500:]
     if want_oracle and hasattr(_MOD, "oracle"):
         try:
-            out["fail"] = _MOD.oracle(case) or []
+            out["fail"] = _cpu_limited(_MOD.oracle, case, 2 * limit if limit else None) or []
+        except _CaseTimeout:
+            out["fail"] = [dict(clause="no-answer", detail="the property oracle (implementation calls + brute-force reference) did not "
+                                "finish within %s CPU-seconds on this input" % (2 * limit))]
         except Exception as e:
             out["fail"] = [dict(clause="oracle-crash", detail=traceback.format_exc()[-1500:])]
     else:
@@ -193,6 +224,8 @@ def run_check(pid, tier, seed, replay=None):
     want_oracle = True
     # time limits: per-module base, x4 for the thorough tier, x VERIF_TIMEOUT_SCALE on a loaded machine
     tscale = (4.0 if tier == "thorough" else 1.0) * float(os.environ.get("VERIF_TIMEOUT_SCALE", "1"))
+    if tier == "thorough":       # per-case CPU budgets scale with the tier (inherited by the forked workers)
+        os.environ["VERIF_CASE_CPU_SCALE"] = str(4.0 * float(os.environ.get("VERIF_CASE_CPU_SCALE", "1")))
     impl_timeout = int(getattr(mod, "IMPL_TIMEOUT", 3000) * tscale)
     coq_timeout = int(getattr(mod, "COQ_TIMEOUT", 1200) * tscale)
     outs = run_pool(pid, cases, want_oracle, timeout=impl_timeout)
